@@ -734,7 +734,7 @@ func propC10() *Prop {
 				j.MaxPaths = 3000000
 				js = append(js, j)
 			}
-			js = append(js, job("C10b/filter-through-the-public-constructor[7 list entries x 7 x 10 peer spellings incl. IPv4-mapped and zoned IPv6]", "adminapi", "VerifC10Catalogue"))
+			js = append(js, job("C10b/filter-through-the-public-constructor[10 list entries (incl. single addresses in IPv4-mapped and IPv6 spelling) x 10 x 10 peer spellings incl. IPv4-mapped and zoned IPv6]", "adminapi", "VerifC10Catalogue"))
 			jt := job("C10a/token-as-loaded-from-the-file[7 tokens incl. $-syntax x 6 presented values, real LoadConfig + NewLoadBalancer + NewMux]", "adminapi", "VerifC10LoadedToken")
 			jt.Stubs = configStubs
 			js = append(js, jt)
